@@ -38,8 +38,8 @@ def ctx_id(n, idx=0):
     return tx(n) + "%016x" % idx
 
 
-def req_id(n, batch, height, index):
-    return ctx_id(n) + "%016x%016x%04x" % (batch, height, index)
+def req_id(n, batch, height, index, idx=0):
+    return ctx_id(n, idx) + "%016x%016x%04x" % (batch, height, index)
 
 
 def lifecycle_grid(T=2, F=4, total=3, horizon=11):
@@ -180,12 +180,12 @@ def query_grid():
             for o in (O1, O2, C1, P1):
                 qs.append(f"query via={via} kind=withdraw owner={o}")
                 qs.append(f"query via={via} kind=fees prov={o}")
-            for c in (cid, ctx_id(0xC18)):
+            for c in (cid, ctx_id(0xC18), ctx_id(0xC19, 1)):
                 qs.append(f"query via={via} kind=context ctx={c}")
                 for b in (0, 1, 2, 3):
                     qs.append(f"query via={via} kind=requests_by_ctx ctx={c} batch={b}")
                     qs.append(f"query via={via} kind=responses ctx={c} batch={b}")
-            for r in (r0, r1, req_id(0xC17, 2, 5, 0), req_id(0xC18, 1, 1, 0)):
+            for r in (r0, r1, req_id(0xC17, 2, 5, 0), req_id(0xC18, 1, 1, 0), req_id(0xC19, 1, 1, 0, 1)):
                 qs.append(f"query via={via} kind=request req={r}")
                 qs.append(f"query via={via} kind=response req={r}")
             qs.append(f"query via={via} kind=params")
@@ -202,6 +202,8 @@ def query_grid():
            f"setwd owner={O1} addr={C1}"]
     ops += queries()
     ops.append(f"call tx={tx(0xC17)} idx=0 svc=a provs={P1},{P2} cons={C1} cap=100 timeout=3 super=0 rep=1 freq=4 total=3 input=ok")
+    # a second context of another consumer calling the same provider: two contexts have requests pending with one binding
+    ops.append(f"call tx={tx(0xC19)} idx=1 svc=a provs={P1} cons={O2} cap=50 timeout=5 super=0 rep=0 freq=0 total=0 input=ok")
     ops.append("endblock dt=5000000000")
     ops += queries()                                    # both requests pending
     ops.append(f"respond req={r0} prov={P1} code=200 out=valid")
@@ -280,6 +282,14 @@ def boundary_grid():
         f"bind svc=svc prov={'47' * 20} owner={O1} dep=10000 price=0stake promT=- promV=- qos=0",
         f"bind svc=svc prov={'48' * 20} owner={O1} dep=10000 price=5stake promT=- promV=- qos=18446744073709551615",
         f"bind svc=svc prov=- owner={O1} dep=10000 price=5stake promT=- promV=- qos=1",
+        # machine-integer boundaries: price x multiple (200) around 2^63, prices and deposits at 2^63 and 2^64
+        f"bind svc=svc prov={'49' * 20} owner={O1} dep=10000 price=46116860184273879stake promT=- promV=- qos=1",
+        f"bind svc=svc prov={'4a' * 20} owner={O1} dep=10000 price=46116860184273880stake promT=- promV=- qos=1",
+        f"bind svc=svc prov={'4b' * 20} owner={O1} dep=10000 price=9223372036854775807stake promT=- promV=- qos=1",
+        f"bind svc=svc prov={'4c' * 20} owner={O1} dep=10000 price=9223372036854775808stake promT=- promV=- qos=1",
+        f"bind svc=svc prov={'4d' * 20} owner={O1} dep=9223372036854775808 price=5stake promT=- promV=- qos=1",
+        f"bind svc=svc prov={'4e' * 20} owner={O1} dep=18446744073709551616 price=18446744073709551616stake promT=- promV=- qos=1",
+        f"update svc=svc prov={P1} owner={O1} dep=- price=92233720368547758080stake promT=- promV=- qos=0",
         f"update svc=svc prov={P1} owner={O1} dep=- price=- promT=- promV=- qos=0",
         f"update svc=svc prov={P1} owner={O1} dep=0 price=- promT=- promV=- qos=0",
         f"disable svc=svc prov={P2} owner={O1}",
@@ -348,6 +358,24 @@ def genesis_grid():
             ops.append("prep")
         ops += ["export", "validate", "jsonrt", "reimport"]
         out.append((f"grid:genesis:{variant}", ops))
+    # the export point falls in the middle of batches: one context still running, one paused by its consumer, one
+    # killed — all three with unanswered paid requests — and a provider bound to two services with earnings
+    ops = [genesis(), f"fund acct={O1} amt=1000000", f"fund acct={C1} amt=100000", f"fund acct={'04' * 20} amt=100000",
+           f"define name=svc author={O1} schema=ok", f"define name=a-b author={O1} schema=ok",
+           f"bind svc=svc prov={P1} owner={O1} dep=10000 price=5stake promT=- promV=- qos=1",
+           f"bind svc=a-b prov={P1} owner={O1} dep=10000 price=4stake promT=- promV=- qos=1",
+           f"bind svc=svc prov={P2} owner={O1} dep=10000 price=7stake promT=- promV=- qos=1"]
+    for k in (0, 1, 2):
+        ops.append(f"call tx={tx(0xC1B)} idx={k} svc=svc provs={P1},{P2} cons={C1} cap=100 timeout=10 super=0 rep=1 freq=12 total=3 input=ok")
+    ops.append(f"call tx={tx(0xC1B)} idx=3 svc=a-b provs={P1} cons={'04' * 20} cap=100 timeout=10 super=0 rep=0 freq=0 total=0 input=ok")
+    ops += ["endblock dt=5000000000",
+            f"respond req={req_id(0xC1B, 1, 1, 0, 0)} prov={P1} code=200 out=valid",
+            f"respond req={req_id(0xC1B, 1, 1, 0, 3)} prov={P1} code=200 out=valid",
+            f"pause ctx={ctx_id(0xC1B, 1)} cons={C1}",
+            f"kill ctx={ctx_id(0xC1B, 2)} cons={C1}",
+            "endblock dt=5000000000",
+            "prep", "export", "validate", "jsonrt", "reimport"]
+    out.append(("grid:genesis:inflight", ops))
     return out
 
 
@@ -365,6 +393,6 @@ GRIDS = {
 FOR_PROPERTY = {
     "C01": ["respond", "pricing"], "C02": ["respond", "lifecycle", "pricing"], "C04": ["respond"], "C08": ["respond"],
     "C09": ["lifecycle"], "C10": ["lifecycle"], "C11": ["lifecycle", "respond"], "C12": ["module", "respond"],
-    "C16": ["lifecycle", "respond"], "C06": ["respond", "pricing", "module"], "C18": ["respond"], "C20": ["lifecycle", "boundary"], "C19": ["genesis"],
+    "C16": ["lifecycle", "respond"], "C06": ["respond", "pricing", "module"], "C18": ["respond", "query"], "C20": ["lifecycle", "boundary"], "C19": ["genesis"],
     "C17": ["query"], "C15": ["query"], "C07": ["pricing", "respond"],
 }
